@@ -5,8 +5,12 @@ package c14
 import (
 	"bytes"
 	"crypto"
+	"encoding/hex"
 	"fmt"
 	"math/big"
+	"os"
+	"path/filepath"
+	"strings"
 	"testing"
 
 	"pgregory.net/rapid"
@@ -305,3 +309,70 @@ func propPrivateRoutes(t *rapid.T) {
 }
 
 func TestC14_PrivateRoutes(t *testing.T) { rapid.Check(t, propPrivateRoutes) }
+
+// TestC14_StructuredNonceCorpus replays (key, aux, message) triples whose
+// BIP-340 nonce hash has a rare *shape* -- a zero or all-ones 32-bit half
+// word, two 64-bit words without a common set bit or covering all bits, two
+// nearly equal words, a word with equal halves (found once by brute force
+// with cmd/structsearch: the nonce comes out of SHA-256 and cannot be
+// steered; each shape has probability 2^-26..2^-32).  Signing must give the
+// BIP-340 signature there too: a guard, fast path or limb-wise test in the
+// nonce handling that misfires on such a value (an AND where an OR was meant,
+// a range check on one word) is invisible to any realistic amount of random
+// signing.
+func TestC14_StructuredNonceCorpus(t *testing.T) {
+	raw, err := os.ReadFile(filepath.Join("testdata", "structured_nonces.txt"))
+	if err != nil {
+		t.Fatalf("HARNESS-INCONCLUSIVE: corpus missing: %v", err)
+	}
+	n := 0
+	classes := map[string]bool{}
+	for _, line := range strings.Split(string(raw), "\n") {
+		f := strings.Fields(line)
+		if len(f) != 6 || f[0] != "bip340-nonce" {
+			continue
+		}
+		dB, _ := hex.DecodeString(f[2])
+		aux, _ := hex.DecodeString(f[3])
+		msg, _ := hex.DecodeString(f[4])
+		hB, _ := hex.DecodeString(f[5])
+		d := ref.Int(dB)
+		// the corpus line must be what it says: recompute the nonce hash with the reference
+		P := ref.BaseMul(d)
+		dd := new(big.Int).Set(d)
+		if P.Y.Bit(0) == 1 {
+			dd.Sub(ref.N, dd)
+		}
+		tb := ref.B32(dd)
+		ah := ref.TaggedHash("BIP0340/aux", aux)
+		for i := range tb {
+			tb[i] ^= ah[i]
+		}
+		if got := ref.TaggedHash("BIP0340/nonce", tb, ref.B32(P.X), msg); !bytes.Equal(got, hB) {
+			t.Fatalf("HARNESS-INCONCLUSIVE: corpus line %q does not match the reference nonce hash %x", line, got)
+		}
+		want, ok := ref.BIP340Sign(d, aux, msg)
+		if !ok {
+			continue
+		}
+		key, err := bitcoin.NewSchnorrPrivateKey(ref.B32(d))
+		if err != nil {
+			t.Fatalf("NewSchnorrPrivateKey(%x): %v", d, err)
+		}
+		sig, err := key.Sign(bytes.NewReader(aux), msg, nil)
+		if err != nil || !bytes.Equal(sig, want) {
+			t.Fatalf("Sign(d=%x, aux=%x, msg=%x) = %x (%v), BIP-340 says %x; the nonce hash is %x [shape %s]", d, aux, msg, sig, err, want, hB, f[1])
+		}
+		if !key.PublicKey().Verify(msg, sig) {
+			t.Fatalf("library Verify rejects the signature for d=%x msg=%x [nonce shape %s]", d, msg, f[1])
+		}
+		n++
+		classes[f[1]] = true
+		stat.Case("structured-nonce-corpus", []string{"shape:" + f[1]}, true, []byte(line), func() any {
+			return map[string]any{"shape": f[1], "d": f[2], "aux": f[3], "msg": f[4], "nonce_hash": f[5]}
+		})
+	}
+	if n < 12 || len(classes) < 12 {
+		t.Fatalf("HARNESS-INCONCLUSIVE: corpus has only %d usable lines in %d shape classes", n, len(classes))
+	}
+}
